@@ -95,6 +95,11 @@ func newTape(data []byte) *vTape { return &vTape{data: data, failAt: -1, shortAt
 func (t *vTape) Read(b []byte) (int, error) {
 	idx := t.reads
 	t.reads++
+	if t.reads > 2000000 {
+		// generators draw a bounded number of words per call for every stream the harnesses script;
+		// running on means the code under test does not terminate on this stream
+		panic("scripted random source: more than 2000000 reads in one harness step (non-termination on this stream?)")
+	}
 	t.requests = append(t.requests, len(b))
 	if idx == t.failAt {
 		return 0, errors.New("scripted RNG failure")
